@@ -755,3 +755,119 @@ Proof.
     destruct (p_start (span part) <=? d)%Z; ring.
   - rewrite andb_false_r. destruct (in_span (span part) d); reflexivity.
 Qed.
+
+Lemma close_keys_equiv part dl s5 d5 :
+  part_facts part -> postings_syntactic dl -> pvals_zero (flat_postings dl) ->
+  process_days (close_proc (start_dates part)) (mkClose [] [])
+    (map (filt (span part)) (b_days (builder_touch (builder_of dl) (start_dates part)))) = ROk (s5, d5) ->
+  forall ac,
+    (exists x, In x (days_postings d5) /\ key_of x = ac) <->
+    (exists e, In e (user_entries (span part) (periods part) (flat_postings dl) ++
+                     closing_entries (flat_postings dl) (closable_keys (span part) (flat_postings dl)) (p_start (span part)) (periods part))
+               /\ ekey e = ac).
+Proof.
+  intros Hpf Hsyn Hpvz H. pose proof Hpf as [Hss Htiles].
+  set (sp := span part) in *. set (ps := periods part) in *. set (posts := flat_postings dl) in *.
+  set (days0 := b_days (builder_touch (builder_of dl) (start_dates part))) in *.
+  assert (Hperm : Permutation (days_postings days0) posts).
+  { unfold days0. rewrite builder_touch_perm. apply builder_of_perm. }
+  assert (Hdated0 : days_dated days0) by (apply builder_touch_dated; apply builder_of_dated).
+  assert (Hsorted0 : StronglySorted Z.lt (dates days0)).
+  { apply Sorted_StronglySorted; [intros x y z; apply Z.lt_trans|].
+    unfold days0, builder_touch. cbn [b_days]. apply touch_sorted. apply builder_of_sorted. }
+  assert (Hcov0 : forall s, In s (start_dates part) -> In s (dates days0)).
+  { unfold days0, builder_touch. cbn [b_days]. apply (proj1 (touch_dates _ _)). }
+  set (days1 := map (filt sp) days0) in *.
+  assert (Hin1 : forall dp, In dp (days_postings days1) <-> In dp posts /\ in_span sp (fst dp) = true).
+  { intros dp. unfold days1. rewrite (filt_in_iff sp days0 dp Hdated0). split; intros [A B]; (split; [|exact B]).
+    - eapply Permutation_in; [exact Hperm|exact A].
+    - eapply Permutation_in; [apply Permutation_sym; exact Hperm|exact A]. }
+  assert (Hok : posts_ok posts) by (intros [d p] Hin; apply (Hsyn d p Hin)).
+  assert (Hok1 : posts_ok (days_postings days1)) by (intros dp Hin; apply Hok; apply Hin1; exact Hin).
+  assert (Hpv1 : pvals_zero (days_postings days1)) by (intros dp Hin; apply Hpvz; apply Hin1; exact Hin).
+  assert (Hsorted1 : StronglySorted Z.lt (dates days1)) by (unfold days1; rewrite filt_dates; exact Hsorted0).
+  assert (Hdated1 : days_dated days1) by (apply filt_dated; exact Hdated0).
+  destruct (sorted_lower _ Hsorted1) as (lo & Hlo).
+  assert (Hcov1 : forall s0, In s0 (start_dates part) -> (lo < s0)%Z -> In s0 (dates days1)).
+  { intros s0 Hs0 _. unfold days1. rewrite filt_dates. apply Hcov0. exact Hs0. }
+  assert (Hinv0 : forall g, msum g (c_qty (mkClose [] [])) == owed (start_dates part) (firstclose (start_dates part) days1) g []) by (intros g; reflexivity).
+  destruct (close_days_set (start_dates part) Hss days1 [] lo (mkClose [] []) s5 d5 Hsorted1 Hdated1
+              (fun dp (Hf : In dp []) => match Hf with end) Hlo Hcov1 map_ok_nil (Forall_nil _) Hok1 Hpv1 Hinv0 H) as (HA & HB & HC).
+  assert (Hle_of : forall dp, In dp (days_postings days1) -> (p_start sp <= p_end sp)%Z).
+  { intros dp Hin. apply Hin1 in Hin. destruct Hin as [_ Hs]. unfold in_span in Hs. lia. }
+  assert (Hcol : forall d, in_span sp d = true -> column_for ps d <> None).
+  { intros d Hs. unfold in_span in Hs. destruct (Htiles ltac:(fold sp; lia)) as [Ht _].
+    apply (column_some _ _ _ d Ht). fold sp. lia. }
+  assert (Huser : forall ac, (exists x, In x (days_postings days1) /\ key_of x = ac) <->
+                             (exists e, In e (user_entries sp ps posts) /\ ekey e = ac)).
+  { intros ac. rewrite (user_entries_keys sp ps posts ac Hcol). split; intros (x & Hx & Hk).
+    - apply Hin1 in Hx. exists x. tauto.
+    - destruct Hk as [Hk1 Hk2]. exists x. split; [apply Hin1; tauto|exact Hk2]. }
+  assert (Hkeys_ok : forall k, In k (closable_keys sp posts) -> account_ok (fst k) = true /\ closable (fst k) = true
+                                 /\ (p_start sp <= p_end sp)%Z).
+  { intros k Hk. rewrite closable_keys_fold in Hk. destruct (keys_sound sp k posts [] Hk) as [[]|(dp & A & -> & C & D)].
+    split; [apply Hok; exact A|]. split; [exact D|]. unfold span_dp, in_span in C. lia. }
+  assert (Hfacts : (p_start sp <= p_end sp)%Z ->
+            StronglySorted Z.lt (map p_start ps) /\ Forall (fun p => (p_start sp <= p_start p)%Z) ps).
+  { intros Hle. destruct (Htiles Hle) as [Ht Hfs]. destruct (tiles_facts _ _ _ Ht) as [_ Hb].
+    split; [exact Hss|]. eapply Forall_impl; [|exact Hb]. cbn. intros x Hx. fold sp ps in Hfs. lia. }
+  intros ac. split.
+  - intros (x & Hx & Hk). destruct (HA x Hx) as [H1|(S & m & vs & HS & HSs & Hst & Hxin)].
+    + destruct (proj1 (Huser ac) (ex_intro _ x (conj H1 Hk))) as (e & He & Hek).
+      exists e. split; [apply in_or_app; left; exact He|exact Hek].
+    + pose proof Hst as (Hm & Hvz & _).
+      destruct (proj1 (closing_txns_keys S vs Hvz m ac) (ex_intro _ x (conj Hxin Hk))) as (e0 & He0 & Hz0 & Hc0 & Ha0).
+      set (k := (fst (fst (snd e0)), snd (fst (snd e0)))).
+      destruct Hm as [_ Hmok]. rewrite Forall_forall in Hmok. destruct (Hmok _ He0) as (_ & Hka & Hkc).
+      assert (Hnz : ~ owed (start_dates part) (Some S) (ind k) ([] ++ days_postings days1) == 0).
+      { apply (proj1 (state_nonzero _ _ _ _ _ k Hst Hka)). exists e0. split; [exact He0|split; [exact Hz0|reflexivity]]. }
+      destruct (existsb (fun dp => closable_dp dp && keq (key_of dp) k) (days_postings days1)) eqn:Ex.
+      2: { exfalso. apply Hnz. cbn [app]. apply qsum_zero. intros dp Hin.
+           assert (Hf : closable_dp dp && keq (key_of dp) k = false).
+           { destruct (closable_dp dp && keq (key_of dp) k) eqn:E; [|reflexivity].
+             assert (Ht : existsb (fun dp0 => closable_dp dp0 && keq (key_of dp0) k) (days_postings days1) = true)
+               by (apply existsb_exists; exists dp; split; assumption).
+             congruence. }
+           unfold ind. change (p_acc (snd dp), p_com (snd dp)) with (key_of dp).
+           destruct (closable_dp dp); cbn [andb] in *; [rewrite Hf; destruct (oz_eqb _ _); ring|reflexivity]. }
+      apply existsb_exists in Ex. destruct Ex as (dp & Hdp & Hck). apply andb_true_iff in Hck. destruct Hck as [Hcl Hkq].
+      pose proof (Hle_of dp Hdp) as Hle. apply Hin1 in Hdp. destruct Hdp as [Hdpin Hdpsp].
+      assert (Ekk : key_of dp = k) by (apply keq_eq; [apply Hok; exact Hdpin|exact Hka|exact Hkq]).
+      assert (Hkin : In k (closable_keys sp posts)).
+      { pose proof (keys_complete sp dp posts [] Hdpin Hdpsp Hcl) as Hex. rewrite <- closable_keys_fold in Hex.
+        apply existsb_exists in Hex. destruct Hex as (k' & Hk' & Hkq').
+        destruct (Hkeys_ok k' Hk') as (Hk'a & _).
+        assert (E' : key_of dp = k') by (apply keq_eq; [apply Hok; exact Hdpin|exact Hk'a|exact Hkq']).
+        rewrite <- Ekk, E'. exact Hk'. }
+      destruct (Hfacts Hle) as [Hst1 Hall1].
+      pose proof HSs as HSs2. unfold start_dates in HSs2. apply in_map_iff in HSs2. destruct HSs2 as (p0 & Hp0s & Hp0).
+      assert (Hos : owed (start_dates part) (Some S) (ind k) ([] ++ days_postings days1)
+                    == specV posts (p_start sp) (map p_start ps) S k)
+        by (exact (owed_specV part dl k S Hpf Hle Hsyn Hka Hkc HSs)).
+      assert (Hnz2 : ~ specV posts (p_start sp) (map p_start ps) S k == 0) by (intros H0; apply Hnz; rewrite Hos; exact H0).
+      destruct (proj2 (spec_close_keys posts (closable_keys sp posts) ps (p_start sp) ac Hst1 Hall1)) as (e & He & Hek).
+      { exists p0, k. split; [exact Hp0|]. split; [exact Hkin|]. split; [rewrite Hp0s; exact Hnz2|]. split; [exact Hc0|exact Ha0]. }
+      exists e. split; [apply in_or_app; right; exact He|exact Hek].
+  - intros (e & He & Hek). apply in_app_or in He. destruct He as [He|He].
+    + destruct (proj2 (Huser ac) (ex_intro _ e (conj He Hek))) as (x & Hx & Hk). exists x. split; [apply HB; exact Hx|exact Hk].
+    + destruct (Z_le_gt_dec (p_start sp) (p_end sp)) as [Hle|Hgt].
+      2: { exfalso. rewrite (closable_keys_empty sp posts) in He by (intros d; unfold in_span; lia).
+           rewrite closing_entries_nokeys in He. destruct He. }
+      destruct (Hfacts Hle) as [Hst1 Hall1].
+      destruct (proj1 (spec_close_keys posts (closable_keys sp posts) ps (p_start sp) ac Hst1 Hall1) (ex_intro _ e (conj He Hek)))
+        as (p0 & k & Hp0 & Hkin & Hnz & Hc0 & Ha0).
+      destruct (Hkeys_ok k Hkin) as (Hka & Hkc & _).
+      assert (HSs : In (p_start p0) (start_dates part)) by (unfold start_dates; apply in_map; exact Hp0).
+      assert (HS : In (p_start p0) (dates days1)) by (unfold days1; rewrite filt_dates; apply Hcov0; exact HSs).
+      destruct (HC (p_start p0) HS HSs) as (m & vs & Hst & Hsub).
+      assert (Hos : owed (start_dates part) (Some (p_start p0)) (ind k) ([] ++ days_postings days1)
+                    == specV posts (p_start sp) (map p_start ps) (p_start p0) k)
+        by (exact (owed_specV part dl k (p_start p0) Hpf Hle Hsyn Hka Hkc HSs)).
+      assert (Hnz2 : ~ owed (start_dates part) (Some (p_start p0)) (ind k) ([] ++ days_postings days1) == 0)
+        by (intros H0; apply Hnz; rewrite <- Hos; exact H0).
+      destruct (proj2 (state_nonzero _ _ _ _ _ k Hst Hka) Hnz2) as (e0 & He0 & Hz0 & Hk0).
+      pose proof Hst as (_ & Hvz & _).
+      destruct (proj2 (closing_txns_keys (p_start p0) vs Hvz m ac)) as (x & Hx & Hk).
+      { exists e0. split; [exact He0|]. split; [exact Hz0|]. rewrite <- Hk0 in Hc0, Ha0. cbn [fst snd] in Hc0, Ha0. split; assumption. }
+      exists x. split; [apply Hsub; exact Hx|exact Hk].
+Qed.
